@@ -442,7 +442,7 @@ fn prop_selector(lists: &Vec<Vec<u32>>, ctx: &Ctx) -> PResult {
 pub fn property() -> Property {
     Property {
         id: "C14",
-        rule: "materials: 0..6 texture paths (strings canonical: texture paths first, in order), uv / colour sets, extra strings, additional data of 4..9 bytes with random unrelated flag bits, table kind in {none, legacy dims 0, legacy dims 0x42, Dawntrail 0x53, opaque 0x5X with dye table, dye table without a colour table (legacy / Dawntrail: the two flag bits are independent)} with random half patterns in every row component, dye table where the reader supports it, 0..8 keys, 0..8 constants of 1..4 finite floats with gaps in the value list, 0..6 samplers over the 22 known usages. shader packages: DX9/DX11, 0..4 vertex / pixel shaders with 0..4 parameters of each kind (names in a shared heap, optionally de-duplicated), bytecode blobs, material parameters with / without defaults, package parameters, three key tables, 0..8 nodes with 0..16 passes, 0..6 aliases, tight (no trailing bytes) and roomy files. selector lists: 4 lists of 0..19 keys. Oracle: the generated values (private fields observed through Debug); colour / dye rows component by component from their own half / bit field (own half decoder); pixel bytecode exactly, vertex bytecode as the blob after its 8-byte header; find_node first for selectors nobody carries (0, 1, all ones, a computed one) on the fresh package, then for every node selector and alias (one in sixteen a marker-like value) in a case-dependent order, then all of them again in the opposite order - the answer must not depend on earlier look-ups; build_selector = sum key_i * 31^i mod 2^32 in u128 arithmetic. Non-trivial: material with a table whose first row has pairwise distinct halves; package with >= 1 alias and >= 2 nodes; selector lists with >= 2 keys. Distinct by hash of the file.",
+        rule: "[rounds 8-9: half of the texture table entries carry flags in their high half; a quarter of the string tables unpadded] materials: 0..6 texture paths (strings canonical: texture paths first, in order), uv / colour sets, extra strings, additional data of 4..9 bytes with random unrelated flag bits, table kind in {none, legacy dims 0, legacy dims 0x42, Dawntrail 0x53, opaque 0x5X with dye table, dye table without a colour table (legacy / Dawntrail: the two flag bits are independent)} with random half patterns in every row component, dye table where the reader supports it, 0..8 keys, 0..8 constants of 1..4 finite floats with gaps in the value list, 0..6 samplers over the 22 known usages. shader packages: DX9/DX11, 0..4 vertex / pixel shaders with 0..4 parameters of each kind (names in a shared heap, optionally de-duplicated), bytecode blobs, material parameters with / without defaults, package parameters, three key tables, 0..8 nodes with 0..16 passes, 0..6 aliases, tight (no trailing bytes) and roomy files. selector lists: 4 lists of 0..19 keys. Oracle: the generated values (private fields observed through Debug); colour / dye rows component by component from their own half / bit field (own half decoder); pixel bytecode exactly, vertex bytecode as the blob after its 8-byte header; find_node first for selectors nobody carries (0, 1, all ones, a computed one) on the fresh package, then for every node selector and alias (one in sixteen a marker-like value) in a case-dependent order, then all of them again in the opposite order - the answer must not depend on earlier look-ups; build_selector = sum key_i * 31^i mod 2^32 in u128 arithmetic. Non-trivial: material with a table whose first row has pairwise distinct halves; package with >= 1 alias and >= 2 nodes; selector lists with >= 2 keys. Distinct by hash of the file.",
         assumptions: &["vertex-shader bytecode beyond data_size - 8 is not compared; 8 spare bytes follow the file when it has vertex shaders", "dye table with dims 0x42 is not generated", "node and alias selectors are pairwise distinct; alias node indices are in range"],
         pre: None,
         post: None,
